@@ -14,7 +14,10 @@ from vlib import core
 
 LEVEL = "exploration"
 
-PRESETS = {"exact": 0, "precise": 4, "default": 6, "loose": 12}
+PRESETS = {"exact": 0, "precise": 4, "default": 6, "loose": 12,
+           # an explicit --delta overrides the preset's splice-site tolerance (0 = exact comparison)
+           "default+delta0": 0, "loose+delta3": 3}
+PRESET_OPTS = {"default+delta0": ["--matching_strategy", "default", "--delta", "0"], "loose+delta3": ["--matching_strategy", "loose", "--delta", "3"]}
 CONSISTENT = ("unique", "unique_minor_difference", "ambiguous")
 
 
@@ -330,7 +333,7 @@ def case(args):
     shutil.rmtree(dd, ignore_errors=True)
     paths = syn.materialise(w, dd)
     out = os.path.join(dd, "out")
-    rc = run.run_isoquant(run.base_argv(paths, out, extra=["--no_model_construction", "--matching_strategy", preset]),
+    rc = run.run_isoquant(run.base_argv(paths, out, extra=["--no_model_construction"] + PRESET_OPTS.get(preset, ["--matching_strategy", preset])),
                           paths["home"], os.path.join(dd, "o.txt"))
     errs = []
     npos = nneg = 0
@@ -394,7 +397,7 @@ def run(ctx):
         for preset in PRESETS:
             jobs.append((name, w, iso, meta, preset, d, ctx.scratch))
     ctx.rng.shuffle(jobs)
-    ctx.note("%d annotations x 4 presets = %d pipeline runs, read deviations <= %d" % (len(anns), len(jobs), d))
+    ctx.note("%d annotations x %d presets = %d pipeline runs, read deviations <= %d" % (len(anns), len(PRESETS), len(jobs), d))
     tp = tn = nt = 0
     metas = {a[0]: a[3] for a in anns}
     for name, preset, errs, npos, nneg, nontriv in core.pmap(case, jobs):
